@@ -191,8 +191,9 @@ def filterMessage (x : Sess) : Msg → Sess × Option Msg
   | .leave ss => ({ x with seenJoin := x.seenJoin.filter (fun s => !ss.contains s) }, some (.leave ss))
   | m => (x, some m)
 
+/-- `ServerMessage.IsChatRefresh`: a *message* (not a control message) whose data is a chat-refresh notice. -/
 def isChatRefresh : Msg → Bool
-  | .message _ _ _ data => data = "chat-refresh"
+  | .message ctl _ _ data => !ctl && data = "chat-refresh"
   | _ => false
 
 def isPartUpdate : Msg → Bool
